@@ -66,6 +66,7 @@ class Session(BusSession):
                     ops.append(['req_bad', l, w])
                     ops.append(['rel_bad', l, w])
                 break
+        ops.append(['reload', '-'])      # the bus re-reads its (unchanged) configuration: owners, queues and flags stay
         return ops
 
     # ---- helpers ---------------------------------------------------------
@@ -256,6 +257,8 @@ class Session(BusSession):
                 out.append(Violation('signal-after-reply', later[0].member.decode(), 'after %r the requester received %r AFTER its reply' % (op, later[0]), None))
             got = self.collect_signals()
             self.check_signals(op, exp, got, out)
+        elif kind == 'reload':
+            self.reload_same(out, repr(op))
         elif kind == 'disc':
             uname = self.uname[l]
             self.close_slot(l)
